@@ -27,13 +27,14 @@ TouchedOk(origB, iws, outB, ows, key, added) ==
 PreservedAt(e, snap, sc, dev, origB, touchedS, addedVS, addedBS) ==
   LET I == Parse(origB) O == Parse(snap.bytes)
       sig(w) == "Fixed/" \o w \o "/" \o dev IN
-  IF IsErr(O) \/ O.mt # 4 \/ Len(O.kids) # 4 THEN Fail(P, sig("serialized-transaction-malformed"), sc, [why |-> O.why, bytes |-> snap.bytes])
+  \* four elements, or the pre-Alonzo layout [body, witness set, auxiliary data]: the auxiliary data is the last element
+  IF IsErr(O) \/ O.mt # 4 \/ Len(O.kids) \notin {3, 4} \/ Len(I.kids) \notin {3, 4} THEN Fail(P, sig("serialized-transaction-malformed"), sc, [why |-> O.why, bytes |-> snap.bytes])
   ELSE
-  LET iws == I.kids[2] ows == O.kids[2] IN
+  LET iws == I.kids[2] ows == O.kids[2] ia == I.kids[Len(I.kids)] oa == O.kids[Len(O.kids)] IN
   /\ Chk(Span(snap.bytes, O.kids[1]) = Span(origB, I.kids[1]), P, sig("body-bytes-changed"), sc, 0)
   /\ Chk(snap.raw_body = Span(origB, I.kids[1]), P, sig("raw-body-differs-from-original-span"), sc, 0)
-  /\ Chk(Span(snap.bytes, O.kids[4]) = Span(origB, I.kids[4]), P, sig("auxiliary-data-bytes-changed"), sc, 0)
-  /\ Chk(Has(snap, "raw_aux") = (I.kids[4].mt # 7) /\ (Has(snap, "raw_aux") => snap.raw_aux = Span(origB, I.kids[4])), P, sig("raw-auxiliary-data-differs-from-original-span"), sc, 0)
+  /\ Chk(Span(snap.bytes, oa) = Span(origB, ia), P, sig("auxiliary-data-bytes-changed"), sc, 0)
+  /\ Chk(Has(snap, "raw_aux") = (ia.mt # 7) /\ (Has(snap, "raw_aux") => snap.raw_aux = Span(origB, ia)), P, sig("raw-auxiliary-data-differs-from-original-span"), sc, 0)
   /\ Chk(ows.mt = 5, P, sig("witness-set-not-a-map"), sc, 0)
   /\ (ows.mt = 5 =>
        /\ \A k \in WsKeys(iws) \ touchedS :
